@@ -72,9 +72,13 @@ package pq
 //@ spec func pqOrd(q *PriorityQueue, p Int, c Int) Bool = cmpv(q.comp, val(q.heap[p].key), val(q.heap[c].key)) <= 0
 //@ spec func pqHeapExcept(q *PriorityQueue, h Int) Bool = forall p Int, c Int :: 1 <= p && (c == 2 * p || c == 2 * p + 1) && c <= q.size && p != h && c != h ==> pqOrd(q, p, c)
 
+// pqDistinctExcept(q, h): the slots 1..size other than h hold pairwise different elements (the heap is a permutation of its elements).
+//@ spec func pqDistinctExcept(q *PriorityQueue, h Int) Bool = forall a Int, b Int :: 1 <= a && a < b && b <= q.size && a != h && b != h ==> q.heap[a] != q.heap[b]
+
 //@ func (*PriorityQueue).downHeap
 //@   props C16
 //@   requires [shape] pqShape(pq) && pq.size < 4611686018427387904
+//@   ensures [C16:still-a-permutation] old(pqDistinctExcept(pq, 0)) ==> pqDistinctExcept(pq, 0)
 //@   ensures [shape-kept] pqShape(pq) && pq.size == old(pq.size) && pq.heap === old(pq.heap)
 //@   ensures [C16:heap-order-restored] old(cmpOK(pq.comp) && pqHeapExcept(pq, 1)) ==> pqHeapExcept(pq, 0)
 //@   modifies pq.heap[*]
@@ -83,6 +87,8 @@ package pq
 //@     invariant 1 <= i && i <= pq.size && 2 <= j && element != nil && element.iterator != nil && (j == 2 * i || (j == 2 * i + 1 && j <= pq.size))
 //@     invariant pq.size == old(pq.size) && pq.heap === old(pq.heap) && len(pq.heap) == pq.size + 1 && pq.comp != nil
 //@     invariant forall c Int :: 1 <= c && c <= pq.size ==> pq.heap[c] != nil && pq.heap[c].iterator != nil
+//@     invariant [distinct-away-from-the-hole] old(pqDistinctExcept(pq, 0)) ==> pqDistinctExcept(pq, i) &&
+//@               (forall a Int :: 1 <= a && a <= pq.size && a != i ==> pq.heap[a] != element)
 //@     invariant [order-away-from-the-hole] old(cmpOK(pq.comp) && pqHeapExcept(pq, 1)) ==> cmpOK(pq.comp) && pqHeapExcept(pq, i)
 //@     invariant [grandparent-below-grandchildren] old(cmpOK(pq.comp) && pqHeapExcept(pq, 1)) ==>
 //@               forall g Int, c Int :: 1 <= g && (i == 2 * g || i == 2 * g + 1) && (c == 2 * i || c == 2 * i + 1) && c <= pq.size ==> pqOrd(pq, g, c)
@@ -96,12 +102,15 @@ package pq
 //@   requires [shape] pqShape(pq) && 1 <= i && i <= pq.size && pq.size < 4611686018427387904
 //@   ensures [shape-kept] pqShape(pq) && pq.size == old(pq.size) && pq.heap === old(pq.heap)
 //@   ensures [C16:heap-order-restored] old(cmpOK(pq.comp) && pqHeapExcept(pq, i) && 2 * i > pq.size) ==> pqHeapExcept(pq, 0)
+//@   ensures [C16:still-a-permutation] old(pqDistinctExcept(pq, 0)) ==> pqDistinctExcept(pq, 0)
 //@   modifies pq.heap[*]
 //@   safety on
 //@   loop 0
 //@     invariant 1 <= i && i <= pq.size && 0 <= j && j < i && element != nil && element.iterator != nil && (i == 2 * j || i == 2 * j + 1)
 //@     invariant pq.size == old(pq.size) && pq.heap === old(pq.heap) && len(pq.heap) == pq.size + 1 && pq.comp != nil
 //@     invariant forall c Int :: 1 <= c && c <= pq.size ==> pq.heap[c] != nil && pq.heap[c].iterator != nil
+//@     invariant [distinct-away-from-the-hole] old(pqDistinctExcept(pq, 0)) ==> pqDistinctExcept(pq, i) &&
+//@               (forall a Int :: 1 <= a && a <= pq.size && a != i ==> pq.heap[a] != element)
 //@     invariant [order-away-from-the-hole] old(cmpOK(pq.comp) && pqHeapExcept(pq, i) && 2 * i > pq.size) ==> cmpOK(pq.comp) && pqHeapExcept(pq, i)
 //@     invariant [children-of-the-hole-above-the-element] old(cmpOK(pq.comp) && pqHeapExcept(pq, i) && 2 * i > pq.size) ==>
 //@               forall c Int :: (c == 2 * i || c == 2 * i + 1) && c <= pq.size ==> cmpv(pq.comp, val(element.key), val(pq.heap[c].key)) <= 0
@@ -123,4 +132,6 @@ package pq
 //@   ensures [live-input-stays] old(pq.size) > 0 && inErr(old(pq.heap[1].iterator), old(inPos(pq.heap[1].iterator))) == nil ==>
 //@           err == nil && pq.size == old(pq.size)
 //@   ensures [refills-from-the-same-input] old(pq.size) > 0 ==> inPos(old(pq.heap[1].iterator)) == old(inPos(pq.heap[1].iterator)) + 1
+//@   ensures [C16:heap-order-kept] old(cmpOK(pq.comp) && pqHeapExcept(pq, 0) && pqDistinctExcept(pq, 0) && pq.size < 4611686018427387904) && err == nil ==>
+//@           pqHeapExcept(pq, 0) && pqDistinctExcept(pq, 0)
 //@   safety on
